@@ -102,3 +102,20 @@ pub fn from_cfb_glue_wiring() {
     let cfb = img::image_model(&x, &y, &junk, true);
     check_project(cfb, &x, &y);
 }
+
+/// smallest variant: 3 streams of one mini sector each, no decoys
+#[kani::proof]
+#[kani::unwind(4)]
+#[kani::stub(read_dir_information, read_dir_information_model)]
+#[kani::stub(Reference::from_stream, references_model)]
+#[kani::stub(read_modules, read_modules_model)]
+#[kani::stub(codepage::to_encoding, img::to_encoding_1252_stub)]
+#[kani::stub(crate::cfb::decompress_stream, img::decompress_model)]
+pub fn from_cfb_glue_wiring_min() {
+    let x: [u8; 3] = kani::any();
+    let y: [u8; 2] = kani::any();
+    let junk: [u8; 3] = kani::any();
+    kani::cover!(x[0] != y[0] && junk[0] == 0x01);
+    let cfb = img::image_model_min(&x, &y, &junk);
+    check_project(cfb, &x, &y);
+}
